@@ -231,7 +231,7 @@ static int l1s_sbdet_resp(__unused uint8_t p1, uint8_t attempt,
 	synchronize_tdma(&l1s.serving_cell);
 
 	/* if we have received a SYNC burst, update our local GSM time */
-	gsm_fn2gsmtime(&l1s.current_time, fbs.mon.time.fn + SB2_LATENCY);
+	gsm_fn2gsmtime(&l1s.current_time, (fbs.mon.time.fn + SB2_LATENCY) % GSM_MAX_FN);
 	/* compute next time from new current time */
 	l1s.next_time = l1s.current_time;
 	l1s_time_inc(&l1s.next_time, 1);
